@@ -89,6 +89,16 @@ Definition eval_unary_gen (mem logical out : list A) : option (list A) :=
 Definition eval_unary (inp out : list A) : option (list A) := eval_unary_gen inp inp out.
 End Unary.
 
+(* The packed lanes apply the context's LANE function [g] (an intrinsic / builtin composition, e.g.
+   relu = max(x,0), relu6 = max(min(x,6),0)), the scalar tail applies the view's functor [f].  The
+   theorems are about g = f; the correspondence probes g against f per (context, dtype, op), and where
+   they are known to differ (-0.0 / NaN under relu6, the zero tie of fmax) the model predicts the exact
+   lane result (Section LaneMax below). *)
+Definition eval_unary_lane (g f : A -> A) (inp out : list A) : option (list A) :=
+  let size := length inp in
+  let M := size / N in
+  obind (packed1 g size 0 size inp out) (fun out' => tail1 f (size - M * N) (M * N) inp out').
+
 (* ------------------------------------------------------------------ eval_binary *)
 Section Binary.
 Variable f : A -> A -> A.
@@ -388,6 +398,8 @@ Definition eval_outer_top (row_major : bool) (lhs_shape rhs_shape : list nat) (l
 
 End Binary.
 
+Definition eval_unary_lane_top (row_major : bool) (g f : A -> A) (inp out scalar : list A) : outcome :=
+  with_fallback scalar (guard_layout row_major (of_opt (eval_unary_lane g f inp out))).
 Definition eval_unary_top (row_major : bool) (f : A -> A) (inp out scalar : list A) : outcome :=
   with_fallback scalar (guard_layout row_major (of_opt (eval_unary f inp out))).
 
@@ -439,3 +451,40 @@ Definition colmajor2 (d : A) (rows cols : nat) (l : list A) : list A :=
 End Simd.
 
 Arguments Refused {A}. Arguments Undefined {A}.
+
+(* ================================================================== lane functions of relu / relu6 *)
+(* Operand-order semantics of the x86 packed max/min (MAXPS/MAXPD/MINPS/MINPD, also what SIMDe emits):
+   the SECOND operand is returned unless the comparison holds, i.e. whenever either operand is NaN or both
+   are zeros of either sign.  C's fmax/fmin (the vector-extension contexts call __builtin_fmax per lane)
+   ignore a NaN operand and leave the sign of a zero/zero tie unspecified ([tie_first]). *)
+Section LaneMax.
+Variable A : Type.
+Variable gtb : A -> A -> bool.      (* a > b, false when either is NaN, zeros compare equal *)
+Variable nanb : A -> bool.
+Definition max_x86 (a b : A) : A := if gtb a b then a else b.
+Definition min_x86 (a b : A) : A := if gtb b a then a else b.
+Definition fmax_c (tie_first : bool) (a b : A) : A :=
+  if nanb a then b else if nanb b then a else if gtb a b then a else if gtb b a then b else if tie_first then a else b.
+Definition fmin_c (tie_first : bool) (a b : A) : A :=
+  if nanb a then b else if nanb b then a else if gtb b a then a else if gtb a b then b else if tie_first then a else b.
+(* simd/ufunc.hpp: relu = max(a, zero); relu6 = max(min(a, six), zero) *)
+Definition relu_x86 (zero a : A) : A := max_x86 a zero.
+Definition relu6_x86 (zero six a : A) : A := max_x86 (min_x86 a six) zero.
+Definition relu_vext (tie : bool) (zero a : A) : A := fmax_c tie a zero.
+Definition relu6_vext (tie : bool) (zero six a : A) : A := fmax_c tie (fmin_c tie a six) zero.
+(* the scalar functors: view/activations/relu.hpp (x > 0 ? x : 0), relu6.hpp (x<0 -> 0, x>6 -> 6, else x) *)
+Definition relu_scalar (zero a : A) : A := if gtb a zero then a else zero.
+Definition relu6_scalar (zero six a : A) : A := if gtb zero a then zero else if gtb a six then six else a.
+End LaneMax.
+
+(* a five-point caricature of IEEE values, enough to state the special-value table *)
+Inductive tf := TNaN | TNeg (n : nat) | TPos (n : nat).      (* TNeg 0 = -0.0, TPos 0 = +0.0 *)
+Definition tf_gtb (a b : tf) : bool :=
+  match a, b with
+  | TPos x, TPos y => y <? x
+  | TPos x, TNeg y => (0 <? x) || (0 <? y)
+  | TNeg x, TNeg y => x <? y
+  | _, _ => false
+  end.
+Definition tf_nanb (a : tf) : bool := match a with TNaN => true | _ => false end.
+
